@@ -31,6 +31,9 @@ type Session struct {
 	written         map[string]string
 	lastMaxInflight int
 	lastFlushTrace  string
+	graph           *graphTracker
+	lastActs        int
+	lastHsync       string
 	ctx             context.Context
 }
 
@@ -43,7 +46,12 @@ func NewSession(cfg Cfg) *Session {
 		s.Cache = mast.NewNodeCache(100000)
 	case "tiny":
 		s.Cache = mast.NewNodeCache(2)
+	case "recbig":
+		s.Cache = &recCache{inner: mast.NewNodeCache(100000), seen: map[string]interface{}{}}
+	case "rectiny":
+		s.Cache = &recCache{inner: mast.NewNodeCache(2), seen: map[string]interface{}{}}
 	}
+	s.graph = newGraphTracker()
 	return s
 }
 
@@ -166,6 +174,12 @@ func (s *Session) Exec(line string) (obs string, viol string) {
 			}
 		}
 		return o + " ;" + strings.Join(loads, " "), v
+	case "hsync":
+		// the actions since the last sync, attributed to the tree that was operated on
+		s.lastHsync = s.hsync(int(num(1)))
+		return "ok", ""
+	case "vcheck":
+		return "ok", s.vcheck()
 	case "difflinks":
 		return s.execDiffLinks(int(num(1)), int(num(2)))
 	case "flush":
@@ -430,6 +444,12 @@ func checkName(c StoreCall) string {
 // their argument (the entry list) from the harness's oracle rather than from mast.
 func (s *Session) ModelLine(line string) string {
 	t := strings.Fields(line)
+	if t[0] == "hsync" {
+		return s.lastHsync
+	}
+	if t[0] == "vcheck" {
+		return "echo ok"
+	}
 	if t[0] == "flush" {
 		// the model replays the trace the implementation produced
 		tr := s.lastFlushTrace
